@@ -53,6 +53,18 @@ def ref_target_local(body, q, depth=6):
     return None
 
 
+def entry_fields(crate):
+    """(connection field, stream field) of the server's stream-list entry type: told apart by field type, not by name"""
+    for p, a in crate.adts.items():
+        if p.startswith('server::') and p.split('::')[-1].endswith('ReplyStream') and a.get('variants'):
+            fs = a['variants'][0].get('fields') or []
+            conn = [f['name'] for f in fs if 'connection::Connection<' in (f.get('ty') or '')]
+            other = [f['name'] for f in fs if 'connection::Connection<' not in (f.get('ty') or '')]
+            if len(conn) == 1 and len(other) == 1:
+                return conn[0], other[0]
+    return 'conn', 'stream'
+
+
 def check_cfg(fx, rep, crate, cfg):
     S = srv.Srv(crate)
     if S.run is None or S.errors:
@@ -220,7 +232,7 @@ def check_cfg(fx, rep, crate, cfg):
             w_ok = False
             if tr.get('kind') == 'call' and tr['callee'].get('name') == 'write_mut':
                 t2 = run.trace(tr['args'][0])
-                if t2.get('kind') == 'place' and [n for a, n in t2.get('fields', [])][-1:] == ['conn']:
+                if t2.get('kind') == 'place' and [n for a, n in t2.get('fields', [])][-1:] == [entry_fields(crate)[0]]:
                     sd = run.single_def(t2['base'])
                     if sd and sd[2] == 'call' and sd[3]['callee'].get('name') in ('index_mut', 'get_mut'):
                         iq = op_place(sd[3]['args'][1])
@@ -244,7 +256,7 @@ def check_cfg(fx, rep, crate, cfg):
         for b, t in cb.iter_terms('call'):
             if t['callee'].get('name') == 'next' and 'StreamExt' in (t['callee'].get('def') or '') + (t['callee'].get('trait') or ''):
                 tr = cb.trace(t['args'][0])
-                if tr.get('kind') == 'place' and [n for a, n in tr.get('fields', [])][-1:] == ['stream'] and t['dest']['l'] == 0:
+                if tr.get('kind') == 'place' and [n for a, n in tr.get('fields', [])][-1:] == [entry_fields(crate)[1]] and t['dest']['l'] == 0:
                     ok5 = True
     rep.check(ok5, 'R10.5', '%s|item-futures-are-next-of-entry-stream|%s' % (fk, cfg), run.where(),
               'the futures polled for stream items are StreamExt::next on each entry\'s own `stream` field',
